@@ -166,18 +166,18 @@ Proof. intros q cs s rest W H. apply exec_reach; [exact W|]. eapply replay_leaf;
 (* non-vacuity: concrete reachable estimating sketches (a downsampling merge with stride 4 into a copy of the source;
    a sketch with an empty base buffer and empty lower levels) *)
 Example C07_cq_nonvacuous :
-  (exists ar s, witness1 (repeat 0 11) = Some (ar, s) /\ reach s (inputs W1) /\ ck s = 2 /\ cn s = 50 /\ cbp s = 12 /\
-     clv s = [[]; []; [32; 100]; [0; 16]] /\ sum_weights (iterate s) = 50) /\
+  (exists ar s, replay_ar (exec W1) (repeat 0 11) = Some (ar, s) /\ reach s (inputs W1) /\ ck s = 2 /\ cn s = 50 /\
+     cbp s = 12 /\ clv s = [[]; []; [32; 100]; [0; 16]] /\ sum_weights (iterate s) = 50) /\
   (exists ar s, replay_ar (exec W2) (repeat 1 7) = Some (ar, s) /\ reach s (inputs W2) /\ cbb s = [] /\ cbp s = 4 /\
      iterate s = [(7, 8); (15, 8)]).
 Proof.
   split.
-  - destruct witness1_values as (ar & s & H & _ & A & B & C & _ & D & _ & E & _).
+  - destruct witness1_values as (ar & s & H & P & _ & A & B & C & _ & D & _ & E & _).
     exists ar, s. split; [exact H|]. split; [|repeat split; assumption].
-    apply exec_reach; [exact W1_wf|]. exact (path_leaf _ _ _ (replay_ar_path (exec W1) (repeat 0 11) ar s H)).
-  - destruct witness2_values as (ar & s & H & _ & A & B & _ & C).
+    apply exec_reach; [exact W1_wf|]. exact (path_leaf _ _ _ P).
+  - destruct witness2_values as (ar & s & H & P & _ & A & B & _ & C).
     exists ar, s. split; [exact H|]. split; [|repeat split; assumption].
-    apply exec_reach; [exact W2_wf|]. exact (path_leaf _ _ _ (replay_ar_path (exec W2) (repeat 1 7) ar s H)).
+    apply exec_reach; [exact W2_wf|]. exact (path_leaf _ _ _ P).
 Qed.
 
 Print Assumptions C07_cq_weight_conserved.
